@@ -90,6 +90,9 @@ IMPORT_STYLES = [
     # only part of what the stub needs from `shapes` is imported: the new name merges into a statement that stays
     {"name": "from-import-partial", "lines": ["from shapes import Square, unit", "from geo.util import Point", "from colors import Color"],
      "Circle": "type(unit())", "Square": "Square", "Point": "Point", "Color": "Color"},
+    # the explicit re-export spelling: an alias equal to the name
+    {"name": "reexport-alias", "lines": ["from shapes import Circle as Circle, Square as Square", "from geo.util import Point as Point", "import colors as colors"],
+     "Circle": "Circle", "Square": "Square", "Point": "Point", "Color": "colors.Color"},
     {"name": "mixed", "lines": ["import shapes", "from shapes import Square", "from geo.util import Point", "from colors import *"],
      "Circle": "shapes.Circle", "Square": "Square", "Point": "Point", "Color": "Color"},
 ]
